@@ -47,6 +47,6 @@ for k in range(1, 8):
         det = {"fired": fired}
     else:
         det = {"applied": False}
-    meta.update({"area": pid, "suite_ok": ok, "suite": why, "alarms_first_pass": det.get("fired", {}), "wave": 2 if offset else 1})
+    meta.update({"area": pid, "suite_ok": ok, "suite": why, "alarms_first_pass": det.get("fired", {}), "wave": (1 + offset // 6) if offset else 1})
     json.dump(meta, open(os.path.join(d, "meta.json"), "w"), indent=1)
     print(f"{pid}-r{k + offset}: suite_ok={ok} alarms={det.get('fired')} :: {meta.get('kind','')[:40]} :: {meta.get('summary','')[:100]}")
